@@ -39,11 +39,12 @@ RULE = ('cases from one PRNG: (a) one span: random fibre (0.1-300 km in km or m,
         'channels (quick) with random previously accumulated CD/PMD/PDL/latency; (b) paths of 2-8 real elements (Fiber, Roadm '
         'with per-band PMD/PDL, Edfa with PMD/PDL, Fused; 25 % identical spans, else all different) crossed in the given and '
         'in a shuffled order; (c) ~10 % malformed (lumped loss outside the fibre, loss table not covering the comb); '
-        '(d) Raman-on cases. non-trivial: (a) always, (b) when the elements differ and the order was really changed, '
+        '(d) Raman-on cases on Fiber and RamanFiber objects (with and without counter-pumps, ~60 % with user padding att_in, '
+        'connector losses); per-frequency loss / dispersion tables are listed in ascending, descending or shuffled order. non-trivial: (a) always, (b) when the elements differ and the order was really changed, '
         '(d) when the Raman effect exceeds 1e-4 dB; distinct = canonical JSON of the case')
 MODEL_SCOPE = ('modelled: Fiber.__init__ lumped-loss conversion and position check, Fiber.propagate (Raman off), '
                'RamanSolver._create_lumped_losses and calculate_attenuation_profile, apply_attenuation_db, Fiber.loss, '
-               'loss_coef_func/alpha (scalar and per-frequency), chromatic_dispersion, beta2, beta3 (scalar dispersion), pmd, '
+               'loss_coef_func/alpha (scalar and per-frequency; interp1d sorts the table), chromatic_dispersion, beta2, beta3 (scalar dispersion), pmd, '
                'FiberParams latency, the PMD/PDL updates of Roadm.propagate and Edfa.propagate. Taken from the implementation: '
                'beta3 for dispersion tables (numpy.polyfit), the ROADM impairment lookup per frequency')
 PARTIAL = [
@@ -172,7 +173,7 @@ def gen_malformed(rng, tier):
         a, b = (lo + 1e9, hi + 1e12) if rng.random() < 0.5 else (lo - 1e12, hi - 1e9)
         if n == 1:
             a, b = lo + 1e9, lo + 2e12
-        fib['loss_coef'] = {'value': [0.2, 0.22, 0.21], 'frequency': [a, (a + b) / 2, b]}
+        fib['loss_coef'] = FB._table(rng, [a, (a + b) / 2, b], [0.2, 0.22, 0.21])
     return {'kind': 'malformed', 'bad': bad, 'fibre': fib, 'comb': comb, 'init': _init(rng, n, zero=True)}
 
 
@@ -188,6 +189,11 @@ def gen_raman(rng, tier, widen):
     fib = FB.gen_fibre(rng, 185e12, 208e12, lumped=False)
     fib['length'] = round(rng.choice([rng.uniform(3, 40), rng.uniform(20, 100), 80.0]), 3)
     fib['length_units'] = 'km'
+    # padding and connector losses on a Raman span are legal input (auto-design never pads a RamanFiber, users may)
+    if rng.random() < 0.6:
+        fib['att_in'] = rng.choice([1.0, 2.5, 0.5, round(rng.uniform(0.1, 6), 2)])
+    if fib['con_in'] == 0 and rng.random() < 0.7:
+        fib['con_in'] = rng.choice([0.5, 0.25, 1.0])
     pumps = []
     if rng.random() < 0.5:
         for _ in range(rng.randint(1, 2)):
@@ -206,7 +212,7 @@ def gen_raman(rng, tier, widen):
     res = rng.choice([100, 200, 500] if pumps else [50, 100, 200, 500, 1000])
     return {'kind': 'raman', 'fibre': fib, 'comb': comb, 'pumps': pumps, 'method': method,
             'order': rng.choice([1, 2, 2, 3, 4]), 'solver_res': res, 'result_res': rng.choice([1e3, 5e3, 10e3]),
-            'temperature': 283, 'init': _init(rng, n, zero=True)}
+            'temperature': 283, 'init': _init(rng, n, zero=True), 'raman_class': bool(pumps) or rng.random() < 0.6}
 
 
 # ---------------------------------------------------------------------------------------------------------------------
@@ -313,10 +319,11 @@ def run_span(case, drv):
     # ---- the interpolation kernels themselves (numpy.interp clamps, interp1d raises outside the table)
     if isinstance(p['loss_coef'], dict) and len(p['loss_coef']['value']) > 1:
         from scipy.interpolate import interp1d
-        xp, fp = p['loss_coef']['frequency'], p['loss_coef']['value']
-        xs = freq + [xp[0] - 1e9, xp[-1] + 1e9, xp[0], xp[-1], xp[len(xp) // 2]]
+        xp, fp = p['loss_coef']['frequency'], p['loss_coef']['value']      # listed in any frequency order
+        xs = freq + [min(xp) - 1e9, max(xp) + 1e9, min(xp), max(xp), xp[len(xp) // 2]]
         ia = drv.ask('c05.interp', x=fl(xs), table=[[f2b(a), f2b(b)] for a, b in zip(xp, fp)])
-        res.cmp_floats('numpy.interp', np.interp(xs, xp, fp), [b2f(v) for v in ia['interp']])
+        sx, sf = zip(*sorted(zip(xp, fp)))                                  # numpy.interp needs ascending abscissae
+        res.cmp_floats('numpy.interp', np.interp(xs, sx, sf), [b2f(v) for v in ia['interp']])
         f1 = interp1d(xp, fp)
         impl1 = []
         for x in xs:
@@ -367,7 +374,12 @@ def run_span(case, drv):
     res.stats.update({'span_channels': n, 'loss_per_frequency': int(isinstance(p['loss_coef'], dict)),
                       f'lumped_{len(p.get("lumped_losses", []))}': 1, 'lumped_same_position': int(dup),
                       'padding': int(p.get('att_in', 0) > 0), 'dispersion_table': int('dispersion_per_frequency' in p),
-                      'dispersion_slope': int('dispersion_slope' in p), 'length_in_m': int(p['length_units'] == 'm')})
+                      'dispersion_slope': int('dispersion_slope' in p), 'length_in_m': int(p['length_units'] == 'm'),
+                      'dispersion_slope_zero': int(p.get('dispersion_slope') == 0.0)})
+    if isinstance(p['loss_coef'], dict):
+        res.stats.update({'loss_table_' + FB.table_order(p['loss_coef']): 1})
+    if 'dispersion_per_frequency' in p:
+        res.stats.update({'dispersion_table_' + FB.table_order(p['dispersion_per_frequency']): 1})
     return res
 
 
@@ -542,7 +554,7 @@ def _raman_fiber(case, p=None, pumps=None):
     from gnpy.core.elements import RamanFiber
     p = case['fibre'] if p is None else p
     pumps = case['pumps'] if pumps is None else pumps
-    if not case['pumps']:
+    if not case.get('raman_class', bool(case['pumps'])):
         return FB.mk_fiber(p)          # plain Fiber, Raman flag on: the inter-channel transfer only
     return FB.mk_fiber(p, cls=RamanFiber, operational={'temperature': case['temperature'], 'raman_pumps': pumps})
 
@@ -644,6 +656,32 @@ def run_raman(case, drv):
                          f'{low[i]:.9f} dB, length x loss coefficient + lumped losses = {budget[i]:.9f} dB (tolerance '
                          f'{tol:.3g} dB)', channel=i)
                 break
+    # R1b: the ELEMENT (RamanFiber / Fiber __call__, connectors and padding included) in the low-power limit applies the
+    # FULL budget att_in + con_in + length x loss + lumped + con_out, and Fiber.loss states the same at the reference
+    # frequency. Signals at 1e-5, pumps at 1e-10 of their power: the spontaneous Raman ASE the pumps add to pch is then
+    # < 1e-8 of the signal (allowance 1e-6 dB).
+    sc_s, sc_p = 1e-5, 1e-10
+    tiny_pumps = [dict(q, power=q['power'] * sc_p) for q in pumps]
+    full = [budget_db(p, f) for f in freq]
+    yp_e, x_e = bounds(np.array([v * sc_s for v in pw] + [q['power'] * sc_p for q in pumps]))
+    for method in ('perturbative', 'numerical'):
+        elem = _raman_fiber(case, pumps=tiny_pumps)
+        with FB.sim_params(_raman_sim(case, method)):
+            out = elem(_si(comb, case['init'], pw=[v * sc_s for v in pw]))
+        tol = NEPER_DB * 2 * x_e + 1e-9 + (1e-6 if pumps else 0.0)
+        if method == 'numerical' or euler_used:
+            tol += NEPER_DB * 2 * (a_max + yp_e) ** 2 * S2
+        for i in range(n):
+            got = 10 * math.log10(pw[i] * sc_s / float(out.pch[i]))
+            if abs(got - full[i]) > tol:
+                res.fail(f'low-power limit (element): {type(elem).__name__}.__call__ [{method}] attenuates channel {i} by '
+                         f'{got:.9f} dB, padding + connectors + length x loss coefficient + lumped losses = {full[i]:.9f} dB '
+                         f'(tolerance {tol:.3g} dB)', channel=i)
+                break
+    want_loss = budget_db(p, FB.ref_frequency(p))
+    if abs(float(fiber.loss) - want_loss) > 1e-9:
+        res.fail(f'Fiber.loss: {type(fiber).__name__}.loss = {float(fiber.loss):.9f} dB, budget at the reference frequency '
+                 f'{want_loss:.9f} dB')
     # R2: perturbative and numerical agree
     yp, x = bounds(monp)
     for order in sorted({1, case['order']}):
@@ -685,7 +723,10 @@ def run_raman(case, drv):
     res.nontrivial = effect > 1e-4
     res.stats.update({'kind_raman': 1, f'raman_{case["method"]}': 1, f'raman_pumps_{len(pumps)}': 1,
                       f'raman_lumped_{len(p.get("lumped_losses", []))}': 1,
-                      'raman_effect_above_0.1dB': int(effect > 0.1), 'raman_effect_above_1dB': int(effect > 1.0)})
+                      'raman_effect_above_0.1dB': int(effect > 0.1), 'raman_effect_above_1dB': int(effect > 1.0),
+                      'raman_padding': int(p.get('att_in', 0) > 0), 'raman_con_in': int(p['con_in'] > 0),
+                      'raman_class_' + type(fiber).__name__: 1,
+                      'raman_ramanfiber_padded': int(type(fiber).__name__ == 'RamanFiber' and p.get('att_in', 0) > 0)})
     return res
 
 
